@@ -292,6 +292,223 @@ theorem R2Ctx.M_of_same (c : R2Ctx cmp) {k : Bytes} (h : lookupKV cmp k c.L = lo
       rw [hl, hr, this]
       simp
 
+/-- the collision the key-wise merge reports at a key -/
+def R2Ctx.C (c : R2Ctx cmp) (k : Bytes) : Option Collision :=
+  (mergeKey c.collide (lookupKV cmp k c.B) (lookupKV cmp k c.L) (lookupKV cmp k c.R)).2
+
+theorem R2Ctx.C_of_cr_none (c : R2Ctx cmp) {k : Bytes} (h : c.cr k = none) : c.C k = none := by
+  unfold R2Ctx.C mergeKey
+  unfold R2Ctx.cr at h
+  rw [h]
+
+theorem R2Ctx.C_of_cl_none (c : R2Ctx cmp) {k : Bytes} (h : c.cl k = none) : c.C k = none := by
+  cases hr : c.cr k with
+  | none => exact c.C_of_cr_none hr
+  | some er =>
+    unfold R2Ctx.C mergeKey
+    unfold R2Ctx.cl at h
+    unfold R2Ctx.cr at hr
+    rw [h, hr]
+
+theorem R2Ctx.C_of_same (c : R2Ctx cmp) {k : Bytes} (h : lookupKV cmp k c.L = lookupKV cmp k c.R) : c.C k = none := by
+  cases hr : c.cr k with
+  | none => exact c.C_of_cr_none hr
+  | some er =>
+    cases hl : c.cl k with
+    | none => exact c.C_of_cl_none hl
+    | some el =>
+      have : el = er := by
+        unfold R2Ctx.cl at hl; unfold R2Ctx.cr at hr
+        rw [h] at hl; rw [hl] at hr; simpa using hr
+      unfold R2Ctx.C mergeKey
+      unfold R2Ctx.cl at hl; unfold R2Ctx.cr at hr
+      rw [hl, hr, this]
+      simp
+
+theorem R2Ctx.C_at_collision (c : R2Ctx cmp) {k : Bytes} {el er : Event} (hl : c.cl k = some el) (hr : c.cr k = some er) :
+    c.C k = if el.to? == er.to? then none else some ⟨el, er⟩ := by
+  unfold R2Ctx.C mergeKey
+  unfold R2Ctx.cl at hl; unfold R2Ctx.cr at hr
+  rw [hl, hr]
+  simp only []
+  split
+  · rfl
+  · cases c.collide el er <;> rfl
+
+theorem lt_of_startsAfter_not (ol : OrdLaws cmp) {p : Patch} {a b : Bytes} (ha : startsAfter cmp p a) (hb : ¬ startsAfter cmp p b) :
+    cmp a b = .lt := by
+  cases h : cmp a b with
+  | lt => rfl
+  | eq => exact absurd (startsAfter_down ol ha (by rw [ol.eq_symm h]; simp)) hb
+  | gt => exact absurd (startsAfter_down ol ha (by rw [(ol.gt_iff _ _).mp h]; simp)) hb
+
+theorem region5 (pl pr : Patch) (k : Bytes) : (startsAfter cmp pl k ∧ startsAfter cmp pr k) ∨ (startsAfter cmp pl k ∧ ¬ startsAfter cmp pr k) ∨
+    (¬ startsAfter cmp pl k ∧ startsAfter cmp pr k) ∨
+    (¬ startsAfter cmp pl k ∧ ¬ startsAfter cmp pr k ∧ (cmp k pl.endKey ≠ .gt ∨ cmp k pr.endKey ≠ .gt)) ∨
+    (¬ startsAfter cmp pl k ∧ ¬ startsAfter cmp pr k ∧ cmp k pl.endKey = .gt ∧ cmp k pr.endKey = .gt) := by
+  by_cases h1 : startsAfter cmp pl k <;> by_cases h2 : startsAfter cmp pr k
+  · exact Or.inl ⟨h1, h2⟩
+  · exact Or.inr (Or.inl ⟨h1, h2⟩)
+  · exact Or.inr (Or.inr (Or.inl ⟨h1, h2⟩))
+  · by_cases h3 : cmp k pl.endKey = .gt <;> by_cases h4 : cmp k pr.endKey = .gt
+    · exact Or.inr (Or.inr (Or.inr (Or.inr ⟨h1, h2, h3, h4⟩)))
+    · exact Or.inr (Or.inr (Or.inr (Or.inl ⟨h1, h2, Or.inr h4⟩)))
+    · exact Or.inr (Or.inr (Or.inr (Or.inl ⟨h1, h2, Or.inl h3⟩)))
+    · exact Or.inr (Or.inr (Or.inr (Or.inl ⟨h1, h2, Or.inl h3⟩)))
+
+/-! ### the loop invariant, collision part -/
+
+theorem belowP_some' {p : Patch} {t : DiffType} {k : Bytes} : belowP cmp (some (p, t)) k ↔ startsAfter cmp p k :=
+  ⟨fun h => h p t rfl, fun h p' t' hc => by cases hc; exact h⟩
+
+/-- invariant of the `SendPatches` loop (collision part): every collision handed out so far is the
+key-wise merge's collision at its key, lies below left's current patch and they came in ascending key
+order; every key below both current patches whose merge reports a collision has had it handed out; a
+key below exactly one of the two current patches has no collision -/
+structure K (c : R2Ctx cmp) (s : SP) : Prop where
+  sound : ∀ x ∈ s.coll, c.C x.left.key = some x
+  below : ∀ x ∈ s.coll, belowP cmp s.left x.left.key
+  asc : s.coll.reverse.Pairwise (fun a b => cmp a.left.key b.left.key = .lt)
+  done : ∀ k, belowP cmp s.left k → belowP cmp s.right k → ∀ x, c.C k = some x → x ∈ s.coll
+  cL : ∀ k, belowP cmp s.left k → ¬ belowP cmp s.right k → c.C k = none
+  cR : ∀ k, belowP cmp s.right k → ¬ belowP cmp s.left k → c.C k = none
+
+theorem K.advL {c : R2Ctx cmp} {s s' : SP} (kk : K c s) {p : Patch} {t : DiffType} (hleft : s.left = some (p, t))
+    (hmono : ∀ k, startsAfter cmp p k → belowP cmp s'.left k)
+    (hgap : ∀ k, ¬ startsAfter cmp p k → belowP cmp s'.left k → ¬ belowP cmp s.right k → c.cl k = none)
+    (hright : s'.right = s.right) (hcoll : s'.coll = s.coll) : K c s' := by
+  have hb : ∀ k, belowP cmp s.left k ↔ startsAfter cmp p k := by intro k; rw [hleft]; exact belowP_some'
+  refine ⟨by rw [hcoll]; exact kk.sound, ?_, by rw [hcoll]; exact kk.asc, ?_, ?_, ?_⟩
+  · rw [hcoll]; intro x hx; exact hmono _ ((hb _).mp (kk.below x hx))
+  · rw [hcoll, hright]
+    intro k h1 h2 x hx
+    by_cases hs : startsAfter cmp p k
+    · exact kk.done k ((hb k).mpr hs) h2 x hx
+    · rw [kk.cR k h2 (fun h => hs ((hb k).mp h))] at hx; cases hx
+  · rw [hright]
+    intro k h1 h2
+    by_cases hs : startsAfter cmp p k
+    · exact kk.cL k ((hb k).mpr hs) h2
+    · exact c.C_of_cl_none (hgap k hs h1 h2)
+  · rw [hright]
+    intro k h1 h2
+    have hs : ¬ startsAfter cmp p k := fun h => h2 (hmono k h)
+    exact kk.cR k h1 (fun h => hs ((hb k).mp h))
+
+theorem K.advR_split {c : R2Ctx cmp} {s s' : SP} (kk : K c s) {p : Patch} {t : DiffType} (hright : s.right = some (p, t))
+    (hmono : ∀ k, startsAfter cmp p k → belowP cmp s'.right k)
+    (hgap : ∀ k, ¬ startsAfter cmp p k → belowP cmp s'.right k → c.cr k = none)
+    (hleft : s'.left = s.left) (hcoll : s'.coll = s.coll) : K c s' := by
+  have hb : ∀ k, belowP cmp s.right k ↔ startsAfter cmp p k := by intro k; rw [hright]; exact belowP_some'
+  refine ⟨by rw [hcoll]; exact kk.sound, by rw [hcoll, hleft]; exact kk.below, by rw [hcoll]; exact kk.asc, ?_, ?_, ?_⟩
+  · rw [hcoll, hleft]
+    intro k h1 h2 x hx
+    by_cases hs : startsAfter cmp p k
+    · exact kk.done k h1 ((hb k).mpr hs) x hx
+    · rw [c.C_of_cr_none (hgap k hs h2)] at hx; cases hx
+  · rw [hleft]
+    intro k h1 h2
+    have hs : ¬ startsAfter cmp p k := fun h => h2 (hmono k h)
+    exact kk.cL k h1 (fun h => hs ((hb k).mp h))
+  · rw [hleft]
+    intro k h1 h2
+    by_cases hs : startsAfter cmp p k
+    · exact kk.cR k ((hb k).mpr hs) h2
+    · exact c.C_of_cr_none (hgap k hs h1)
+
+theorem K.advR_send {c : R2Ctx cmp} {s s' : SP} (kk : K c s) {p : Patch} {t : DiffType} (hright : s.right = some (p, t))
+    (hmono : ∀ k, startsAfter cmp p k → belowP cmp s'.right k)
+    (hgap : ∀ k, cmp p.endKey k = .lt → belowP cmp s'.right k → c.cr k = none)
+    (hL : belowP cmp s.left p.endKey)
+    (hleft : s'.left = s.left) (hcoll : s'.coll = s.coll) : K c s' := by
+  have hb : ∀ k, belowP cmp s.right k ↔ startsAfter cmp p k := by intro k; rw [hright]; exact belowP_some'
+  refine ⟨by rw [hcoll]; exact kk.sound, by rw [hcoll, hleft]; exact kk.below, by rw [hcoll]; exact kk.asc, ?_, ?_, ?_⟩
+  · rw [hcoll, hleft]
+    intro k h1 h2 x hx
+    by_cases hs : startsAfter cmp p k
+    · exact kk.done k h1 ((hb k).mpr hs) x hx
+    · have hnb : ¬ belowP cmp s.right k := fun h => hs ((hb k).mp h)
+      by_cases hle : cmp k p.endKey ≠ .gt
+      · rw [kk.cL k h1 hnb] at hx; cases hx
+      · have hgt : cmp k p.endKey = .gt := by simpa using hle
+        rw [c.C_of_cr_none (hgap k ((c.ol.gt_iff _ _).mp hgt) h2)] at hx; cases hx
+  · rw [hleft]
+    intro k h1 h2
+    have hs : ¬ startsAfter cmp p k := fun h => h2 (hmono k h)
+    exact kk.cL k h1 (fun h => hs ((hb k).mp h))
+  · rw [hleft]
+    intro k h1 h2
+    by_cases hs : startsAfter cmp p k
+    · exact kk.cR k ((hb k).mpr hs) h2
+    · by_cases hle : cmp k p.endKey ≠ .gt
+      · exact absurd (belowP_down c.ol hL hle) h2
+      · have hgt : cmp k p.endKey = .gt := by simpa using hle
+        exact c.C_of_cr_none (hgap k ((c.ol.gt_iff _ _).mp hgt) h1)
+
+theorem K.advBoth {c : R2Ctx cmp} {s s' : SP} (kk : K c s) {pl pr : Patch} {tl tr : DiffType}
+    (hleft : s.left = some (pl, tl)) (hright : s.right = some (pr, tr))
+    (monoL : ∀ k, startsAfter cmp pl k → belowP cmp s'.left k)
+    (monoR : ∀ k, startsAfter cmp pr k → belowP cmp s'.right k)
+    (gapL : ∀ k, cmp k pl.endKey = .gt → belowP cmp s'.left k → c.cl k = none)
+    (gapR : ∀ k, cmp k pr.endKey = .gt → belowP cmp s'.right k → c.cr k = none)
+    (hcoll : s'.coll = s.coll ∨ ∃ x, s'.coll = x :: s.coll ∧ c.C x.left.key = some x ∧ ¬ startsAfter cmp pl x.left.key ∧
+      belowP cmp s'.left x.left.key)
+    (zC : ∀ k, ¬ startsAfter cmp pl k → ¬ startsAfter cmp pr k → (cmp k pl.endKey ≠ .gt ∨ cmp k pr.endKey ≠ .gt) →
+      (∀ x, c.C k = some x → x ∈ s'.coll) ∧
+      (¬ belowP cmp s'.left k → c.C k = none) ∧ (¬ belowP cmp s'.right k → c.C k = none)) : K c s' := by
+  have hbl : ∀ k, belowP cmp s.left k ↔ startsAfter cmp pl k := by intro k; rw [hleft]; exact belowP_some'
+  have hbr : ∀ k, belowP cmp s.right k ↔ startsAfter cmp pr k := by intro k; rw [hright]; exact belowP_some'
+  have hsub : ∀ x ∈ s.coll, x ∈ s'.coll := by
+    intro x hx
+    rcases hcoll with h | ⟨y, h, _⟩
+    · rw [h]; exact hx
+    · rw [h]; exact List.mem_cons_of_mem _ hx
+  refine ⟨?_, ?_, ?_, ?_, ?_, ?_⟩
+  · intro x hx
+    rcases hcoll with h | ⟨y, h, hy, _⟩
+    · rw [h] at hx; exact kk.sound x hx
+    · rw [h] at hx
+      rcases List.mem_cons.mp hx with rfl | hx
+      · exact hy
+      · exact kk.sound x hx
+  · intro x hx
+    rcases hcoll with h | ⟨y, h, _, _, hy⟩
+    · rw [h] at hx; exact monoL _ ((hbl _).mp (kk.below x hx))
+    · rw [h] at hx
+      rcases List.mem_cons.mp hx with rfl | hx
+      · exact hy
+      · exact monoL _ ((hbl _).mp (kk.below x hx))
+  · rcases hcoll with h | ⟨y, h, _, hy, _⟩
+    · rw [h]; exact kk.asc
+    · rw [h, List.reverse_cons]
+      refine List.pairwise_append.mpr ⟨kk.asc, by simp, ?_⟩
+      intro a ha b hb
+      simp at hb; subst hb
+      exact lt_of_startsAfter_not c.ol ((hbl _).mp (kk.below a (by simpa using ha))) hy
+  · intro k hx hy x hc
+    rcases region5 (cmp := cmp) pl pr k with ⟨a, b⟩ | ⟨a, b⟩ | ⟨a, b⟩ | ⟨a, b, z⟩ | ⟨a, b, g1, g2⟩
+    · exact hsub x (kk.done k ((hbl k).mpr a) ((hbr k).mpr b) x hc)
+    · rw [kk.cL k ((hbl k).mpr a) (fun h => b ((hbr k).mp h))] at hc; cases hc
+    · rw [kk.cR k ((hbr k).mpr b) (fun h => a ((hbl k).mp h))] at hc; cases hc
+    · exact (zC k a b z).1 x hc
+    · rw [c.C_of_cr_none (gapR k g2 hy)] at hc; cases hc
+  · intro k hx hy
+    have h2 : ¬ startsAfter cmp pr k := fun h => hy (monoR k h)
+    rcases region5 (cmp := cmp) pl pr k with ⟨_, b⟩ | ⟨a, _⟩ | ⟨_, b⟩ | ⟨a, b, z⟩ | ⟨_, _, g1, _⟩
+    · exact absurd b h2
+    · exact kk.cL k ((hbl k).mpr a) (fun h => h2 ((hbr k).mp h))
+    · exact absurd b h2
+    · exact (zC k a b z).2.2 hy
+    · exact c.C_of_cl_none (gapL k g1 hx)
+  · intro k hy hx
+    have h1 : ¬ startsAfter cmp pl k := fun h => hx (monoL k h)
+    rcases region5 (cmp := cmp) pl pr k with ⟨a, _⟩ | ⟨a, _⟩ | ⟨_, b⟩ | ⟨a, b, z⟩ | ⟨_, _, _, g2⟩
+    · exact absurd a h1
+    · exact absurd a h1
+    · exact kk.cR k ((hbr k).mpr b) (fun h => h1 ((hbl k).mp h))
+    · exact (zC k a b z).2.1 hx
+    · exact c.C_of_cr_none (gapR k g2 hy)
+
 /-! ### the loop invariant -/
 
 /-- invariant of the `SendPatches` loop (value part):
@@ -309,6 +526,7 @@ structure J (c : R2Ctx cmp) (s : SP) : Prop where
   settled : ∀ k, belowP cmp s.left k → belowP cmp s.right k → patchedValue cmp s.out.reverse c.L k = c.M k
   eL : ∀ k, belowP cmp s.left k → ¬ belowP cmp s.right k → c.M k = lookupKV cmp k c.R
   eR : ∀ k, belowP cmp s.right k → ¬ belowP cmp s.left k → c.M k = lookupKV cmp k c.L
+  kk : K c s
 
 theorem not_belowP {o : Option (Patch × DiffType)} {k : Bytes} (h : ¬ belowP cmp o k) :
     ∃ p t, o = some (p, t) ∧ ¬ startsAfter cmp p k := by
@@ -355,9 +573,10 @@ theorem J.advL {c : R2Ctx cmp} {s s' : SP} (j : J c s) {p : Patch} {t : DiffType
     (hinv : c.InvL s'.l (GenPos.ofResult s'.left))
     (hmono : ∀ k, startsAfter cmp p k → belowP cmp s'.left k)
     (hgap : ∀ k, ¬ startsAfter cmp p k → belowP cmp s'.left k → ¬ belowP cmp s.right k → c.cl k = none)
-    (hr : s'.r = s.r) (hright : s'.right = s.right) (hout : s'.out = s.out) : J c s' := by
+    (hr : s'.r = s.r) (hright : s'.right = s.right) (hout : s'.out = s.out) (hcoll : s'.coll = s.coll) : J c s' := by
   have hb : ∀ k, belowP cmp s.left k ↔ startsAfter cmp p k := by intro k; rw [hleft]; exact belowP_some
-  refine ⟨hinv, by rw [hr, hright]; exact j.ir, by rw [hout]; exact j.tiles, ?_, ?_, ?_, ?_, ?_⟩
+  refine ⟨hinv, by rw [hr, hright]; exact j.ir, by rw [hout]; exact j.tiles, ?_, ?_, ?_, ?_, ?_,
+    j.kk.advL hleft hmono hgap hright hcoll⟩
   · rw [hout, hright]; exact j.outR
   · rw [hout]; intro k hk
     exact j.vL k (fun h => hk (hmono k ((hb k).mp h)))
@@ -382,9 +601,10 @@ theorem J.advR_split {c : R2Ctx cmp} {s s' : SP} (j : J c s) {p : Patch} {t : Di
     (hinv : c.InvR s'.r (GenPos.ofResult s'.right))
     (hmono : ∀ k, startsAfter cmp p k → belowP cmp s'.right k)
     (hgap : ∀ k, ¬ startsAfter cmp p k → belowP cmp s'.right k → c.cr k = none)
-    (hl : s'.l = s.l) (hleft : s'.left = s.left) (hout : s'.out = s.out) : J c s' := by
+    (hl : s'.l = s.l) (hleft : s'.left = s.left) (hout : s'.out = s.out) (hcoll : s'.coll = s.coll) : J c s' := by
   have hb : ∀ k, belowP cmp s.right k ↔ startsAfter cmp p k := by intro k; rw [hright]; exact belowP_some
-  refine ⟨by rw [hl, hleft]; exact j.il, hinv, by rw [hout]; exact j.tiles, ?_, ?_, ?_, ?_, ?_⟩
+  refine ⟨by rw [hl, hleft]; exact j.il, hinv, by rw [hout]; exact j.tiles, ?_, ?_, ?_, ?_, ?_,
+    j.kk.advR_split hright hmono hgap hleft hcoll⟩
   · rw [hout]; intro q hq; exact hmono _ ((hb _).mp (j.outR q hq))
   · rw [hout, hleft]; exact j.vL
   · rw [hout, hleft]
@@ -408,7 +628,7 @@ patch starts -/
 theorem J.advR_send {c : R2Ctx cmp} {s s' : SP} (j : J c s) {p : Patch} {t : DiffType} (hright : s.right = some (p, t))
     (hstep : StepOK cmp c.B c.R c.InvR (.at p t) s'.r s'.right)
     (hL : belowP cmp s.left p.endKey)
-    (hl : s'.l = s.l) (hleft : s'.left = s.left) (hout : s'.out = p :: s.out) : J c s' := by
+    (hl : s'.l = s.l) (hleft : s'.left = s.left) (hout : s'.out = p :: s.out) (hcoll : s'.coll = s.coll) : J c s' := by
   have hb : ∀ k, belowP cmp s.right k ↔ startsAfter cmp p k := by intro k; rw [hright]; exact belowP_some
   have hir : c.InvR s.r (.at p t) := by have := j.ir; rw [hright] at this; exact this
   obtain ⟨hok, _, hval, _⟩ := c.gr.cur s.r p t hir
@@ -416,7 +636,8 @@ theorem J.advR_send {c : R2Ctx cmp} {s s' : SP} (j : J c s) {p : Patch} {t : Dif
     startsAfter_mono c.ol hok (hstep.after p t rfl p' t' hc) hk
   have hgap : ∀ k, cmp p.endKey k = .lt → belowP cmp s'.right k → c.cr k = none := fun k hk hbel =>
     hstep.gap k (fun p0 t0 h0 => by cases h0; exact hk) hbel
-  refine ⟨by rw [hl, hleft]; exact j.il, hstep.inv, ?_, ?_, ?_, ?_, ?_, ?_⟩
+  refine ⟨by rw [hl, hleft]; exact j.il, hstep.inv, ?_, ?_, ?_, ?_, ?_, ?_,
+    j.kk.advR_send hright hmono hgap hL hleft hcoll⟩
   · rw [hout, List.reverse_cons]
     exact tiles_snoc j.tiles hok (fun q hq => (hb _).mp (j.outR q (by simpa using hq)))
   · rw [hout]
@@ -475,7 +696,12 @@ theorem J.advBoth {c : R2Ctx cmp} {s s' : SP} (j : J c s) {pl pr : Patch} {tl tr
       patchedValue cmp s'.out.reverse c.L k = patchedValue cmp s.out.reverse c.L k)
     (zM : ∀ k, ¬ startsAfter cmp pl k → ¬ startsAfter cmp pr k → (cmp k pl.endKey ≠ .gt ∨ cmp k pr.endKey ≠ .gt) →
       patchedValue cmp s'.out.reverse c.L k = c.M k ∧
-      (¬ belowP cmp s'.left k → c.M k = lookupKV cmp k c.L) ∧ (¬ belowP cmp s'.right k → c.M k = lookupKV cmp k c.R)) :
+      (¬ belowP cmp s'.left k → c.M k = lookupKV cmp k c.L) ∧ (¬ belowP cmp s'.right k → c.M k = lookupKV cmp k c.R))
+    (hcoll : s'.coll = s.coll ∨ ∃ x, s'.coll = x :: s.coll ∧ c.C x.left.key = some x ∧ ¬ startsAfter cmp pl x.left.key ∧
+      belowP cmp s'.left x.left.key)
+    (zC : ∀ k, ¬ startsAfter cmp pl k → ¬ startsAfter cmp pr k → (cmp k pl.endKey ≠ .gt ∨ cmp k pr.endKey ≠ .gt) →
+      (∀ x, c.C k = some x → x ∈ s'.coll) ∧
+      (¬ belowP cmp s'.left k → c.C k = none) ∧ (¬ belowP cmp s'.right k → c.C k = none)) :
     J c s' := by
   have hbl : ∀ k, belowP cmp s.left k ↔ startsAfter cmp pl k := by intro k; rw [hleft]; exact belowP_some
   have hbr : ∀ k, belowP cmp s.right k ↔ startsAfter cmp pr k := by intro k; rw [hright]; exact belowP_some
@@ -506,7 +732,8 @@ theorem J.advBoth {c : R2Ctx cmp} {s s' : SP} (j : J c s) {pl pr : Patch} {tl tr
       · exact Or.inr (Or.inr (Or.inr (Or.inl ⟨h1, h2, Or.inr h4⟩)))
       · exact Or.inr (Or.inr (Or.inr (Or.inl ⟨h1, h2, Or.inl h3⟩)))
       · exact Or.inr (Or.inr (Or.inr (Or.inl ⟨h1, h2, Or.inl h3⟩)))
-  refine ⟨stepL.inv, stepR.inv, htiles, ?_, ?_, ?_, ?_, ?_⟩
+  refine ⟨stepL.inv, stepR.inv, htiles, ?_, ?_, ?_, ?_, ?_,
+    j.kk.advBoth hleft hright monoL monoR gapL gapR hcoll zC⟩
   · intro q hq
     by_cases hold : q ∈ s.out
     · exact monoR _ ((hbr _).mp (j.outR q hold))
@@ -570,11 +797,11 @@ theorem J.curR {c : R2Ctx cmp} {s : SP} (j : J c s) {p : Patch} {t : DiffType} (
 theorem J.nextL {c : R2Ctx cmp} {s s' : SP} (j : J c s) {p : Patch} {t : DiffType} (hleft : s.left = some (p, t))
     (hn : pgNext cmp c.fuel s.l = .ok (s'.l, s'.left))
     (hcovR : ∀ k, p.covers cmp k = true → belowP cmp s.right k)
-    (hr : s'.r = s.r) (hright : s'.right = s.right) (hout : s'.out = s.out) : J c s' := by
+    (hr : s'.r = s.r) (hright : s'.right = s.right) (hout : s'.out = s.out) (hcoll : s'.coll = s.coll) : J c s' := by
   have hi := j.curL hleft
   obtain ⟨hok, _, _, _⟩ := c.gl.cur s.l p t hi
   have st := next_stepOK c.gl hi (by simp) hn
-  refine j.advL hleft st.inv ?_ ?_ hr hright hout
+  refine j.advL hleft st.inv ?_ ?_ hr hright hout hcoll
   · intro k hk p' t' hc
     exact startsAfter_mono c.ol hok (st.after p t rfl p' t' hc) hk
   · intro k hs hb hnr
@@ -586,23 +813,23 @@ theorem J.nextL {c : R2Ctx cmp} {s s' : SP} (j : J c s) {p : Patch} {t : DiffTyp
 /-- `left, … = l.split(ctx)` -/
 theorem J.splitL {c : R2Ctx cmp} {s s' : SP} (j : J c s) {p : Patch} {t : DiffType} (hleft : s.left = some (p, t))
     (hlev : p.level ≠ 0) (hn : pgSplit cmp c.fuel s.l = .ok (s'.l, s'.left))
-    (hr : s'.r = s.r) (hright : s'.right = s.right) (hout : s'.out = s.out) : J c s' := by
+    (hr : s'.r = s.r) (hright : s'.right = s.right) (hout : s'.out = s.out) (hcoll : s'.coll = s.coll) : J c s' := by
   obtain ⟨i2, m2, g2⟩ := split_facts c.gl (j.curL hleft) hlev hn
-  exact j.advL hleft i2 m2 (fun k hs hb _ => g2 k hs hb) hr hright hout
+  exact j.advL hleft i2 m2 (fun k hs hb _ => g2 k hs hb) hr hright hout hcoll
 
 /-- `right, … = r.split(ctx)` -/
 theorem J.splitR {c : R2Ctx cmp} {s s' : SP} (j : J c s) {p : Patch} {t : DiffType} (hright : s.right = some (p, t))
     (hlev : p.level ≠ 0) (hn : pgSplit cmp c.fuel s.r = .ok (s'.r, s'.right))
-    (hl : s'.l = s.l) (hleft : s'.left = s.left) (hout : s'.out = s.out) : J c s' := by
+    (hl : s'.l = s.l) (hleft : s'.left = s.left) (hout : s'.out = s.out) (hcoll : s'.coll = s.coll) : J c s' := by
   obtain ⟨i2, m2, g2⟩ := split_facts c.gr (j.curR hright) hlev hn
-  exact j.advR_split hright i2 m2 g2 hl hleft hout
+  exact j.advR_split hright i2 m2 g2 hl hleft hout hcoll
 
 /-- `buf.SendPatch(right); right, … = getNextAndSplitIfAtEnd(&r)` -/
 theorem J.sendR {c : R2Ctx cmp} {s s' : SP} (j : J c s) {p : Patch} {t : DiffType} (hright : s.right = some (p, t))
     (hn : getNextAndSplitIfAtEnd cmp c.fuel s.r = .ok (s'.r, s'.right))
     (hL : belowP cmp s.left p.endKey)
-    (hl : s'.l = s.l) (hleft : s'.left = s.left) (hout : s'.out = p :: s.out) : J c s' :=
-  j.advR_send hright (getNext_stepOK c.gr (j.curR hright) (by simp) hn) hL hl hleft hout
+    (hl : s'.l = s.l) (hleft : s'.left = s.left) (hout : s'.out = p :: s.out) (hcoll : s'.coll = s.coll) : J c s' :=
+  j.advR_send hright (getNext_stepOK c.gr (j.curR hright) (by simp) hn) hL hl hleft hout hcoll
 
 /-! ### point patch against point patch with the same key -/
 
@@ -627,7 +854,9 @@ theorem J.pointEq {c : R2Ctx cmp} {s s' : SP} (j : J c s) {pl pr : Patch} {tl tr
     (hnR : getNextAndSplitIfAtEnd cmp c.fuel s.r = .ok (s'.r, s'.right))
     (qs : List Patch) (hq : ∀ q ∈ qs, q.level = 0 ∧ q.endKey = pl.endKey) (hlen : qs.length ≤ 1)
     (hout : s'.out.reverse = s.out.reverse ++ qs)
-    (hval : ∀ k, cmp k pl.endKey = .eq → patchedValue cmp (s.out.reverse ++ qs) c.L k = c.M k) : J c s' := by
+    (hval : ∀ k, cmp k pl.endKey = .eq → patchedValue cmp (s.out.reverse ++ qs) c.L k = c.M k)
+    (hcoll : s'.coll = s.coll ∨ ∃ x, s'.coll = x :: s.coll ∧ c.C x.left.key = some x ∧ x.left.key = pl.endKey)
+    (hC : ∀ k, cmp k pl.endKey = .eq → ∀ x, c.C k = some x → x ∈ s'.coll) : J c s' := by
   have stepL := next_stepOK c.gl (j.curL hleft) (by simp) hnL
   have stepR := getNext_stepOK c.gr (j.curR hright) (by simp) hnR
   have sl : ∀ k, startsAfter cmp pl k ↔ cmp k pl.endKey = .lt := by intro k; simp [startsAfter, hl0]
@@ -642,7 +871,23 @@ theorem J.pointEq {c : R2Ctx cmp} {s s' : SP} (j : J c s) {pl pr : Patch} {tl tr
     intro q
     have : q ∈ s'.out.reverse ↔ q ∈ s.out.reverse ++ qs := by rw [hout]
     simpa using this
-  refine j.advBoth hleft hright stepL stepR ?_ ?_ ?_ ?_ ?_ ?_ ?_
+  refine j.advBoth hleft hright stepL stepR ?_ ?_ ?_ ?_ ?_ ?_ ?_ ?_ ?_
+  rotate_left 7
+  · rcases hcoll with h | ⟨x, h, hx, hk⟩
+    · exact Or.inl h
+    · refine Or.inr ⟨x, h, hx, ?_, ?_⟩
+      · rw [hk, sl, c.ol.refl]; simp
+      · rw [hk]; exact stepL.after pl tl rfl
+  · intro k h1 h2 h3
+    have hk : cmp k pl.endKey = .eq := by
+      rcases h3 with h3 | h3
+      · exact point_key_class c.ol hl0 h1 h3
+      · exact c.ol.eq_trans (point_key_class c.ol hr0 h2 h3) (c.ol.eq_symm hkeq)
+    refine ⟨hC k hk, ?_, ?_⟩
+    · intro hnb
+      exact absurd (belowP_down c.ol (stepL.after pl tl rfl) (by rw [hk]; simp)) hnb
+    · intro hnb
+      exact absurd (belowP_down c.ol (stepR.after pr tr rfl) (by rw [c.ol.eq_trans hk hkeq]; simp)) hnb
   · -- tiles
     rw [hout]
     cases qs with
@@ -734,13 +979,20 @@ theorem J.sameTo {c : R2Ctx cmp} {s s' : SP} (j : J c s) {pl pr : Patch} {tl tr 
     (hsame : optPValEq pl.to? pr.to? = true)
     (hnL : pgNext cmp c.fuel s.l = .ok (s'.l, s'.left))
     (hnR : getNextAndSplitIfAtEnd cmp c.fuel s.r = .ok (s'.r, s'.right))
-    (hout : s'.out = if cmpNilMin cmp pl.keyBelowStart pr.keyBelowStart == .gt then pr :: s.out else s.out) : J c s' := by
+    (hout : s'.out = if cmpNilMin cmp pl.keyBelowStart pr.keyBelowStart == .gt then pr :: s.out else s.out)
+    (hcoll : s'.coll = s.coll) : J c s' := by
   have stepL := next_stepOK c.gl (j.curL hleft) (by simp) hnL
   have stepR := getNext_stepOK c.gr (j.curR hright) (by simp) hnR
   obtain ⟨hokr, _, vr, _⟩ := c.gr.cur s.r pr tr (j.curR hright)
   have hbr : ∀ k, belowP cmp s.right k ↔ startsAfter cmp pr k := by intro k; rw [hright]; exact belowP_some
   have hbl : ∀ k, belowP cmp s.left k ↔ startsAfter cmp pl k := by intro k; rw [hleft]; exact belowP_some
   have hsv := fun k => same_to_same_values j hleft hright hl hr hsame (k := k)
+  have zC : ∀ k, ¬ startsAfter cmp pl k → ¬ startsAfter cmp pr k → (cmp k pl.endKey ≠ .gt ∨ cmp k pr.endKey ≠ .gt) →
+      (∀ x, c.C k = some x → x ∈ s'.coll) ∧
+      (¬ belowP cmp s'.left k → c.C k = none) ∧ (¬ belowP cmp s'.right k → c.C k = none) := by
+    intro k h1 h2 h3
+    have hC := c.C_of_same (hsv k h1 h2 h3)
+    exact ⟨fun x hx => (by rw [hC] at hx; cases hx), fun _ => hC, fun _ => hC⟩
   by_cases hsent : (cmpNilMin cmp pl.keyBelowStart pr.keyBelowStart == .gt) = true
   · -- right's patch is sent
     simp only [hsent, if_true] at hout
@@ -750,7 +1002,7 @@ theorem J.sameTo {c : R2Ctx cmp} {s s' : SP} (j : J c s) {pl pr : Patch} {tl tr 
       intro k h2 hle
       have hc := covers_of_between c.ol h2 hle
       rw [hrev, patchedValue_snoc_cover (j.nocover_of_not_belowR (fun h => h2 ((hbr k).mp h))) hc, vr k hc]
-    refine j.advBoth hleft hright stepL stepR ?_ ?_ ?_ ?_ ?_ ?_ ?_
+    refine j.advBoth hleft hright stepL stepR ?_ ?_ ?_ ?_ ?_ ?_ ?_ (Or.inl hcoll) zC
     · rw [hrev]
       exact tiles_snoc j.tiles hokr (fun q hq => (hbr _).mp (j.outR q (by simpa using hq)))
     · intro q hq hnew
@@ -791,7 +1043,7 @@ theorem J.sameTo {c : R2Ctx cmp} {s s' : SP} (j : J c s) {pl pr : Patch} {tl tr 
   · -- not sent: left's patch starts at or before right's
     have hns : (cmpNilMin cmp pl.keyBelowStart pr.keyBelowStart == .gt) = false := by simpa using hsent
     simp only [hns, Bool.false_eq_true, if_false] at hout
-    refine j.advBoth hleft hright stepL stepR (by rw [hout]; exact j.tiles) ?_ ?_ ?_ ?_ ?_ ?_
+    refine j.advBoth hleft hright stepL stepR (by rw [hout]; exact j.tiles) ?_ ?_ ?_ ?_ ?_ ?_ (Or.inl hcoll) zC
     · intro q hq hnew; rw [hout] at hq; exact absurd hq hnew
     · intro k _ _; rw [hout]
     · intro k h1 h2
@@ -874,7 +1126,7 @@ theorem sendLoop_J (c : R2Ctx cmp) : ∀ (n : Nat) (s s' : SP), J c s → sendLo
               | ok v =>
                 simp only [hn] at h
                 refine sendLoop_J c n _ s' ?_ h
-                refine j.nextL hleft hn ?_ rfl hright.symm rfl
+                refine j.nextL hleft hn ?_ rfl hright.symm rfl rfl
                 intro k hk
                 exact (hbr k).mpr ((sr k).mpr (c.ol.eq_lt _ _ _ ((covers_iff_point hl0 k).mp hk) hc))
             | gt =>
@@ -884,7 +1136,7 @@ theorem sendLoop_J (c : R2Ctx cmp) : ∀ (n : Nat) (s s' : SP), J c s → sendLo
               | ok v =>
                 simp only [hn] at h
                 refine sendLoop_J c n _ s' ?_ h
-                exact j.sendR hright hn ((hbl _).mpr ((sl _).mpr ((c.ol.gt_iff _ _).mp hc))) rfl hleft.symm rfl
+                exact j.sendR hright hn ((hbl _).mpr ((sl _).mpr ((c.ol.gt_iff _ _).mp hc))) rfl hleft.symm rfl rfl
             | eq =>
               simp only [hc] at h
               -- the two changes of this key
@@ -917,13 +1169,25 @@ theorem sendLoop_J (c : R2Ctx cmp) : ∀ (n : Nat) (s s' : SP), J c s → sendLo
                   | ok w =>
                     simp only [hn, hn2] at h
                     refine sendLoop_J c n _ s' ?_ h
-                    refine j.pointEq hleft hright hl0 hr0 hc hn hn2 [] (by simp) (by simp) (by simp) ?_
-                    intro k hk
-                    rw [List.append_nil, j.vL k (hnbL k hk), c.M_at_collision (hcl k hk) (hcr k hk)]
-                    rw [hopt] at hto
-                    simp [hto]
+                    refine j.pointEq hleft hright hl0 hr0 hc hn hn2 [] (by simp) (by simp) (by simp) ?_ (Or.inl rfl) ?_
+                    · intro k hk
+                      rw [List.append_nil, j.vL k (hnbL k hk), c.M_at_collision (hcl k hk) (hcr k hk)]
+                      rw [hopt] at hto
+                      simp [hto]
+                    · intro k hk x hx
+                      rw [c.C_at_collision (hcl k hk) (hcr k hk)] at hx
+                      rw [hopt] at hto
+                      simp [hto] at hx
               · have hto' : optPValEq pl.to? pr.to? = false := by simpa using hto
                 simp only [hto', Bool.not_false, if_true, resolveCollision] at h
+                have hCk : ∀ k, cmp k pl.endKey = .eq → c.C k = some ⟨⟨tl, pl.endKey, pvalBytes pl.from?, pvalBytes pl.to?⟩,
+                    ⟨tr, pr.endKey, pvalBytes pr.from?, pvalBytes pr.to?⟩⟩ := by
+                  intro k hk
+                  rw [c.C_at_collision (hcl k hk) (hcr k hk)]
+                  have := hto'
+                  rw [hopt] at this
+                  simp [this]
+                have hCx := hCk pl.endKey (c.ol.refl _)
                 cases hcol : c.collide ⟨tl, pl.endKey, pvalBytes pl.from?, pvalBytes pl.to?⟩ ⟨tr, pr.endKey, pvalBytes pr.from?, pvalBytes pr.to?⟩ with
                 | none =>
                   simp only [hcol] at h
@@ -936,10 +1200,15 @@ theorem sendLoop_J (c : R2Ctx cmp) : ∀ (n : Nat) (s s' : SP), J c s → sendLo
                       simp only [hn, hn2] at h
                       refine sendLoop_J c n _ s' ?_ h
                       refine j.pointEq hleft hright hl0 hr0 hc hn hn2 [] (by simp) (by simp) (by simp) ?_
-                      intro k hk
-                      rw [List.append_nil, j.vL k (hnbL k hk), c.M_at_collision (hcl k hk) (hcr k hk)]
-                      rw [hopt] at hto'
-                      simp [hto', hcol]
+                        (Or.inr ⟨_, rfl, hCx, rfl⟩) ?_
+                      · intro k hk
+                        rw [List.append_nil, j.vL k (hnbL k hk), c.M_at_collision (hcl k hk) (hcr k hk)]
+                        rw [hopt] at hto'
+                        simp [hto', hcol]
+                      · intro k hk x hx
+                        rw [hCk k hk] at hx
+                        cases hx
+                        exact List.mem_cons_self
                 | some to =>
                   simp only [hcol] at h
                   cases hn : pgNext cmp c.fuel s.l with
@@ -952,14 +1221,19 @@ theorem sendLoop_J (c : R2Ctx cmp) : ∀ (n : Nat) (s s' : SP), J c s → sendLo
                       refine sendLoop_J c n _ s' ?_ h
                       refine j.pointEq hleft hright hl0 hr0 hc hn hn2
                         [{ from? := pl.from?, endKey := pl.endKey, to? := to.map PVal.val }] (by simp) (by simp) (by simp) ?_
-                      intro k hk
-                      have hcov : Patch.covers cmp { from? := pl.from?, endKey := pl.endKey, to? := to.map PVal.val } k = true := by
-                        rw [covers_iff_point rfl]; exact hk
-                      rw [patchedValue_snoc_cover (j.nocover_of_not_belowR (hnbR k hk)) hcov,
-                        c.M_at_collision (hcl k hk) (hcr k hk)]
-                      rw [hopt] at hto'
-                      simp only [hto', Bool.false_eq_true, if_false, hcol]
-                      cases to <;> simp [Patch.valAt, pointEffect]
+                        (Or.inr ⟨_, rfl, hCx, rfl⟩) ?_
+                      · intro k hk
+                        have hcov : Patch.covers cmp { from? := pl.from?, endKey := pl.endKey, to? := to.map PVal.val } k = true := by
+                          rw [covers_iff_point rfl]; exact hk
+                        rw [patchedValue_snoc_cover (j.nocover_of_not_belowR (hnbR k hk)) hcov,
+                          c.M_at_collision (hcl k hk) (hcr k hk)]
+                        rw [hopt] at hto'
+                        simp only [hto', Bool.false_eq_true, if_false, hcol]
+                        cases to <;> simp [Patch.valAt, pointEffect]
+                      · intro k hk x hx
+                        rw [hCk k hk] at hx
+                        cases hx
+                        exact List.mem_cons_self
           · -- left point, right range
             have hrp : 0 < pr.level := Nat.pos_of_ne_zero hr0
             simp only [hl0, hrp, Nat.lt_irrefl, gt_iff_lt, decide_false, decide_true, Bool.false_and, Bool.false_eq_true, if_false, if_true] at h
@@ -970,7 +1244,7 @@ theorem sendLoop_J (c : R2Ctx cmp) : ∀ (n : Nat) (s s' : SP), J c s → sendLo
               | ok v =>
                 simp only [hn] at h
                 refine sendLoop_J c n _ s' ?_ h
-                refine j.nextL hleft hn ?_ rfl hright.symm rfl
+                refine j.nextL hleft hn ?_ rfl hright.symm rfl rfl
                 intro k hk
                 exact (hbr k).mpr (startsAfter_of_end_le_start c.ol hr0 ht1 (covers_le_end c.ol hk))
             · have ht1' : ordLE (cmpNilMin cmp (some pl.endKey) pr.keyBelowStart) = false := by simpa using ht1
@@ -982,7 +1256,7 @@ theorem sendLoop_J (c : R2Ctx cmp) : ∀ (n : Nat) (s s' : SP), J c s → sendLo
                 | ok v =>
                   simp only [hn] at h
                   refine sendLoop_J c n _ s' ?_ h
-                  refine j.sendR hright hn ?_ rfl hleft.symm rfl
+                  refine j.sendR hright hn ?_ rfl hleft.symm rfl rfl
                   have : cmp pl.endKey pr.endKey = .gt := by simpa using ht2
                   exact (hbl _).mpr (by simp only [startsAfter, hl0, if_true]; exact (c.ol.gt_iff _ _).mp this)
               · have ht2' : (cmp pl.endKey pr.endKey == .gt) = false := by simpa using ht2
@@ -992,7 +1266,7 @@ theorem sendLoop_J (c : R2Ctx cmp) : ∀ (n : Nat) (s s' : SP), J c s → sendLo
                 | ok v =>
                   simp only [hn] at h
                   refine sendLoop_J c n _ s' ?_ h
-                  exact j.splitR hright hr0 hn rfl hleft.symm rfl
+                  exact j.splitR hright hr0 hn rfl hleft.symm rfl rfl
         · have hlp : 0 < pl.level := Nat.pos_of_ne_zero hl0
           by_cases hr0 : pr.level = 0
           · -- left range, right point
@@ -1004,7 +1278,7 @@ theorem sendLoop_J (c : R2Ctx cmp) : ∀ (n : Nat) (s s' : SP), J c s → sendLo
               | ok v =>
                 simp only [hn] at h
                 refine sendLoop_J c n _ s' ?_ h
-                refine j.sendR hright hn ?_ rfl hleft.symm rfl
+                refine j.sendR hright hn ?_ rfl hleft.symm rfl rfl
                 exact (hbl _).mpr (startsAfter_of_end_le_start c.ol hl0 ht1 (by rw [c.ol.refl]; simp))
             · have ht1' : ordLE (cmpNilMin cmp (some pr.endKey) pl.keyBelowStart) = false := by simpa using ht1
               simp only [ht1', Bool.false_eq_true, if_false] at h
@@ -1015,7 +1289,7 @@ theorem sendLoop_J (c : R2Ctx cmp) : ∀ (n : Nat) (s s' : SP), J c s → sendLo
                 | ok v =>
                   simp only [hn] at h
                   refine sendLoop_J c n _ s' ?_ h
-                  refine j.nextL hleft hn ?_ rfl hright.symm rfl
+                  refine j.nextL hleft hn ?_ rfl hright.symm rfl rfl
                   intro k hk
                   have hgt : cmp pr.endKey pl.endKey = .gt := by simpa using ht2
                   refine (hbr k).mpr ?_
@@ -1028,7 +1302,7 @@ theorem sendLoop_J (c : R2Ctx cmp) : ∀ (n : Nat) (s s' : SP), J c s → sendLo
                 | ok v =>
                   simp only [hn] at h
                   refine sendLoop_J c n _ s' ?_ h
-                  exact j.splitL hleft hl0 hn rfl hright.symm rfl
+                  exact j.splitL hleft hl0 hn rfl hright.symm rfl rfl
           · -- range / range
             have hrp : 0 < pr.level := Nat.pos_of_ne_zero hr0
             simp only [hlp, hrp, gt_iff_lt, decide_true, Bool.and_self, if_true] at h
@@ -1039,7 +1313,7 @@ theorem sendLoop_J (c : R2Ctx cmp) : ∀ (n : Nat) (s s' : SP), J c s → sendLo
               | ok v =>
                 simp only [hn] at h
                 refine sendLoop_J c n _ s' ?_ h
-                refine j.nextL hleft hn ?_ rfl hright.symm rfl
+                refine j.nextL hleft hn ?_ rfl hright.symm rfl rfl
                 intro k hk
                 exact (hbr k).mpr (startsAfter_of_end_le_start c.ol hr0 ht1 (covers_le_end c.ol hk))
             · have ht1' : ordLE (cmpNilMin cmp (some pl.endKey) pr.keyBelowStart) = false := by simpa using ht1
@@ -1051,7 +1325,7 @@ theorem sendLoop_J (c : R2Ctx cmp) : ∀ (n : Nat) (s s' : SP), J c s → sendLo
                 | ok v =>
                   simp only [hn] at h
                   refine sendLoop_J c n _ s' ?_ h
-                  refine j.sendR hright hn ?_ rfl hleft.symm rfl
+                  refine j.sendR hright hn ?_ rfl hleft.symm rfl rfl
                   exact (hbl _).mpr (startsAfter_of_end_le_start c.ol hl0 ht2 (by rw [c.ol.refl]; simp))
               · have ht2' : ordLE (cmpNilMin cmp (some pr.endKey) pl.keyBelowStart) = false := by simpa using ht2
                 simp only [ht2', Bool.false_eq_true, if_false] at h
@@ -1067,7 +1341,7 @@ theorem sendLoop_J (c : R2Ctx cmp) : ∀ (n : Nat) (s s' : SP), J c s → sendLo
                       | ok w =>
                         simp only [hn, hn2] at h
                         refine sendLoop_J c n _ s' ?_ h
-                        exact j.sameTo hleft hright hl0 hr0 ht2' ht3 hn hn2 (by simp [hsent])
+                        exact j.sameTo hleft hright hl0 hr0 ht2' ht3 hn hn2 (by simp [hsent]) rfl
                   · have hns : (cmpNilMin cmp pl.keyBelowStart pr.keyBelowStart == .gt) = false := by simpa using hsent
                     simp only [hns, Bool.false_eq_true, if_false] at h
                     cases hn : pgNext cmp c.fuel s.l with
@@ -1078,7 +1352,7 @@ theorem sendLoop_J (c : R2Ctx cmp) : ∀ (n : Nat) (s s' : SP), J c s → sendLo
                       | ok w =>
                         simp only [hn, hn2] at h
                         refine sendLoop_J c n _ s' ?_ h
-                        exact j.sameTo hleft hright hl0 hr0 ht2' ht3 hn hn2 (by simp [hns])
+                        exact j.sameTo hleft hright hl0 hr0 ht2' ht3 hn hn2 (by simp [hns]) rfl
                 · have ht3' : optPValEq pl.to? pr.to? = false := by simpa using ht3
                   simp only [ht3', Bool.false_eq_true, if_false] at h
                   by_cases hc1 : ordLE (cmpNilMin cmp pl.keyBelowStart pr.keyBelowStart) = true
@@ -1088,7 +1362,7 @@ theorem sendLoop_J (c : R2Ctx cmp) : ∀ (n : Nat) (s s' : SP), J c s → sendLo
                     | ok v =>
                       simp only [hn] at h
                       have j1 : J c { l := v.1, r := s.r, left := v.2, right := some (pr, tr), out := s.out, coll := s.coll } :=
-                        j.splitL hleft hl0 hn rfl hright.symm rfl
+                        j.splitL hleft hl0 hn rfl hright.symm rfl rfl
                       by_cases hc2 : ordGE (cmpNilMin cmp pl.keyBelowStart pr.keyBelowStart) = true
                       · simp only [hc2, if_true] at h
                         cases hn2 : pgSplit cmp c.fuel s.r with
@@ -1097,7 +1371,7 @@ theorem sendLoop_J (c : R2Ctx cmp) : ∀ (n : Nat) (s s' : SP), J c s → sendLo
                           simp only [hn2] at h
                           refine sendLoop_J c n _ s' ?_ h
                           exact j1.splitR (s := { l := v.1, r := s.r, left := v.2, right := some (pr, tr), out := s.out, coll := s.coll })
-                            rfl hr0 hn2 rfl rfl rfl
+                            rfl hr0 hn2 rfl rfl rfl rfl
                       · have hc2' : ordGE (cmpNilMin cmp pl.keyBelowStart pr.keyBelowStart) = false := by simpa using hc2
                         simp only [hc2', Bool.false_eq_true, if_false] at h
                         exact sendLoop_J c n _ s' j1 h
@@ -1110,7 +1384,7 @@ theorem sendLoop_J (c : R2Ctx cmp) : ∀ (n : Nat) (s s' : SP), J c s → sendLo
                       | ok w =>
                         simp only [hn2] at h
                         refine sendLoop_J c n _ s' ?_ h
-                        exact j.splitR hright hr0 hn2 rfl hleft.symm rfl
+                        exact j.splitR hright hr0 hn2 rfl hleft.symm rfl rfl
                     · have hc2' : ordGE (cmpNilMin cmp pl.keyBelowStart pr.keyBelowStart) = false := by simpa using hc2
                       simp only [hc2', Bool.false_eq_true, if_false] at h
                       exact sendLoop_J c n _ s' j h
@@ -1131,7 +1405,7 @@ theorem drain_J (c : R2Ctx cmp) : ∀ (n : Nat) (s s' : SP), J c s → s.left = 
       | ok v =>
         simp only [hn] at h
         have j' : J c { l := s.l, r := v.1, left := s.left, right := v.2, out := pr :: s.out, coll := s.coll } :=
-          j.sendR hright hn (by rw [hl]; intro p t hc; cases hc) rfl rfl rfl
+          j.sendR hright hn (by rw [hl]; intro p t hc; cases hc) rfl rfl rfl rfl
         exact drain_J c n _ s' j' hl h
 
 theorem belowP_none (k : Bytes) : belowP cmp none k := fun p t hc => by cases hc
@@ -1140,7 +1414,8 @@ theorem belowP_none (k : Bytes) : belowP cmp none k := fun p t hc => by cases hc
 tiled and gives every key the value of the key-wise merge -/
 theorem sendPatches_value (c : R2Ctx cmp) (ld rd : PG) (hil : c.InvL ld .start) (hir : c.InvR rd .start)
     (ps : List Patch) (cs : List Collision) (h : sendPatches cmp c.collide c.fuel ld rd = .ok (ps, cs)) :
-    Tiles cmp ps ∧ ∀ k, patchedValue cmp ps c.L k = c.M k := by
+    Tiles cmp ps ∧ (∀ k, patchedValue cmp ps c.L k = c.M k) ∧
+    (∀ x, x ∈ cs ↔ ∃ k, c.C k = some x) ∧ cs.Pairwise (fun a b => cmp a.left.key b.left.key = .lt) := by
   unfold sendPatches at h
   simp only [bind, Except.bind] at h
   cases hn : pgNext cmp c.fuel ld with
@@ -1155,7 +1430,9 @@ theorem sendPatches_value (c : R2Ctx cmp) (ld rd : PG) (hil : c.InvL ld .start) 
       have gapL : ∀ k, belowP cmp v.2 k → c.cl k = none := fun k hb => stL.gap k (fun p t h0 => by cases h0) hb
       have gapR : ∀ k, belowP cmp w.2 k → c.cr k = none := fun k hb => stR.gap k (fun p t h0 => by cases h0) hb
       have j0 : J c { l := v.1, r := w.1, left := v.2, right := w.2 } := by
-        refine ⟨stL.inv, stR.inv, ⟨by simp, by simp⟩, by simp, ?_, ?_, ?_, ?_⟩
+        refine ⟨stL.inv, stR.inv, ⟨by simp, by simp⟩, by simp, ?_, ?_, ?_, ?_,
+          ⟨by simp, by simp, by simp, fun k _ h2 x hx => (by rw [c.C_of_cr_none (gapR k h2)] at hx; cases hx),
+            fun k h1 _ => c.C_of_cl_none (gapL k h1), fun k h1 _ => c.C_of_cr_none (gapR k h1)⟩⟩
         · intro k _; exact patchedValue_nocover (by simp)
         · intro k _ h2
           rw [c.M_of_cr_none (gapR k h2)]; exact patchedValue_nocover (by simp)
@@ -1173,12 +1450,17 @@ theorem sendPatches_value (c : R2Ctx cmp) (ld rd : PG) (hil : c.InvL ld .start) 
             rcases hor with h0 | h0
             · rw [h0] at hsome; simp at hsome
             · exact h0
-          rw [← h.1]
-          refine ⟨j1.tiles, fun k => ?_⟩
-          have hbr : belowP cmp s.right k := by rw [hr]; exact belowP_none k
-          by_cases hb : belowP cmp s.left k
-          · exact j1.settled k hb hbr
-          · rw [j1.vL k hb, j1.eR k hbr hb]
+          rw [← h.1, ← h.2]
+          refine ⟨j1.tiles, fun k => ?_, fun x => ⟨fun hx => ⟨_, j1.kk.sound x (by simpa using hx)⟩, ?_⟩, j1.kk.asc⟩
+          · have hbr : belowP cmp s.right k := by rw [hr]; exact belowP_none k
+            by_cases hb : belowP cmp s.left k
+            · exact j1.settled k hb hbr
+            · rw [j1.vL k hb, j1.eR k hbr hb]
+          · rintro ⟨k, hk⟩
+            have hbr : belowP cmp s.right k := by rw [hr]; exact belowP_none k
+            by_cases hb : belowP cmp s.left k
+            · simpa using j1.kk.done k hb hbr x hk
+            · rw [j1.kk.cR k hbr hb] at hk; cases hk
         · simp only [hsome, Bool.false_eq_true, if_false] at h
           have hl : s.left = none := by
             cases hs : s.left with
@@ -1189,7 +1471,10 @@ theorem sendPatches_value (c : R2Ctx cmp) (ld rd : PG) (hil : c.InvL ld .start) 
           | ok s2 =>
             simp [hdr, pure, Except.pure] at h
             obtain ⟨j2, hl2, hr2⟩ := drain_J c c.fuel s s2 j1 hl hdr
-            rw [← h.1]
-            refine ⟨j2.tiles, fun k => j2.settled k (by rw [hl2]; exact belowP_none k) (by rw [hr2]; exact belowP_none k)⟩
+            rw [← h.1, ← h.2]
+            refine ⟨j2.tiles, fun k => j2.settled k (by rw [hl2]; exact belowP_none k) (by rw [hr2]; exact belowP_none k),
+              fun x => ⟨fun hx => ⟨_, j2.kk.sound x (by simpa using hx)⟩, ?_⟩, j2.kk.asc⟩
+            rintro ⟨k, hk⟩
+            simpa using j2.kk.done k (by rw [hl2]; exact belowP_none k) (by rw [hr2]; exact belowP_none k) x hk
 
 end DoltVerif.ProllyMerge
